@@ -250,7 +250,15 @@ func (sw *SlidingWindow) Add(data any) {
 	// landing in a triggered window still open for late updates. Drop the rest so
 	// sw.data cannot grow without bound under sustained out-of-order input.
 	if timeChar == types.EventTime && sw.watermark != nil && sw.watermark.IsEventTimeLate(eventTime) {
+		// closeTime of the last window that can cover the event (every other covering
+		// window closes earlier): once the watermark has reached it the event is beyond
+		// AllowedLateness for all of them. Decide that on the watermark itself, not on
+		// how far the trigger goroutine has caught up with it — otherwise the same
+		// late event is dropped or aggregated depending on goroutine scheduling.
+		closeTime := alignWindowStart(eventTime, sw.slide).Add(sw.size).Add(sw.config.AllowedLateness)
 		switch {
+		case !sw.watermark.GetCurrentWatermark().Before(closeTime):
+			sw.dropLastRow()
 		case sw.initialized && sw.currentSlot != nil && sw.currentSlot.Contains(eventTime):
 			// watermark advanced past the window start but the window has not
 			// triggered yet; the row triggers normally, keep it.
